@@ -905,7 +905,7 @@ Lemma getitem_absorbed_unfold t idx index : 2 <= length (tshape t) ->
   absorbed_idx (length (tshape t)) index = true ->
   getitem_model Fixed false t idx = absorbed_res t (nonneg (tshape t) index).
 Proof.
-  intros Hnd Hexp Hlen Habs. unfold getitem_model.
+  intros Hnd Hexp Hlen Habs. unfold getitem_model, getitem_front.
   replace (length (tshape t) <? 2) with false by (symmetry; apply Nat.ltb_ge; lia).
   rewrite Hexp. cbv zeta. unfold absorbed_idx in Habs. cbv zeta in Habs. rewrite Habs.
   cbn [negb andb variant_eqb].
@@ -946,7 +946,7 @@ Qed.
 Theorem getitem_debug_irrelevant : forall v t idx r,
   torch_index t idx = Some r -> getitem_model v false t idx = Some r -> getitem_model v true t idx = Some r.
 Proof.
-  intros v t idx r Hspec H. unfold getitem_model in *.
+  intros v t idx r Hspec H. unfold getitem_model, getitem_front in *.
   destruct (length (tshape t) <? 2); [discriminate|].
   unfold torch_index in Hspec.
   destruct (spec_expand (length (tshape t)) idx) as [index|] eqn:Hexp; [|discriminate]. cbv zeta in *.
